@@ -101,7 +101,7 @@ class MacroEngine(c01.CallEngine):
             v = ['l', [['macro', m], ['macro', rng.choice(MACROS)], ['i', 0]]]
           ops.append(['pbind', consumer['sel'] + '.' + p, v])
         elif r < 0.85:    # constants
-          nm = rng.choice(CONSTS + ['1bad', 'a..K'])
+          nm = rng.choice(CONSTS + ['1bad', 'a..K', 'K\n', 'a.K\n'])
           ops.append(['constant', nm, ['obj', 'o%d' % len(defined_consts)] if rng.random() < 0.5 else ginm.gen_plain(rng, 0)])
           defined_consts.append(nm)
         else:
@@ -142,7 +142,7 @@ class MacroEngine(c01.CallEngine):
       if k == 'constant':
         name = op[1]
         import re
-        valid = bool(re.match(r'^([a-zA-Z_]\w*\.)*[a-zA-Z_]\w*$', name))
+        valid = bool(re.fullmatch(r'([a-zA-Z_]\w*\.)*[a-zA-Z_]\w*', name))
         dup = any(c == name or c.endswith('.' + name) for c in consts)
         want_err = (not valid) or dup
         tags.append('constant:' + ('invalid' if not valid else 'dup' if dup else 'ok'))
